@@ -132,6 +132,8 @@ func main() {
 		cmdIOSched(os.Args[2:])
 	case "lazy":
 		cmdLazy(os.Args[2:])
+	case "faulttree":
+		cmdFaultTree(os.Args[2:])
 	default:
 		fmt.Fprintf(os.Stderr, "unknown command %q\n", os.Args[1])
 		os.Exit(2)
